@@ -20,6 +20,30 @@ NEEDS = {
     'C05-r6m2': 'a 3-D point type with exactly 6 correspondences',
     'C07-r6m1': 'weightedEstimate() with a preconditioner matrix that is not a multiple of the identity',
     'C07-r6m2': 'a small-magnitude Y through the SVD path (JtY_.isZero())',
+    'C09-r6m1': 'two consecutive points whose k-neighbourhoods are different index sets with equal sum of squared indexes (result reuse keyed on a scalar signature)',
+    'C09-r6m2': 'a non-planar double cloud whose coordinates are large compared with the sampling step (ratio above ~1e6)',
+    'C10-r6m1': 'operator*(T) used before R() after init() (rotation composed on demand, operator* reads the stale member)',
+    'C10-r6m2': 'small Euler angles, squared norm below 1e-4 (first-order rotation)',
+    'C11-r6m1': 'a 3D pose whose yaw is negative or above 2 pi (toPose2D normalises the yaw)',
+    'C11-r6m2': 'a pose and/or transform with a roll/pitch component (rotations that do not commute)',
+    'C12-r6m1': 'a rotation with an exact zero in slot (0,0) or (2,2): literal / permutation matrices, exact quarter turns',
+    'C12-r6m2': 'dRTdAngles(T) called before any dRdAngleAround?Axis() after init() (tables composed on demand)',
+    'C13-r6m1': 'two consecutive computeCellIndexes() calls on one float mapping with points closer than 1e-5*|p| but in different cells',
+    'C13-r6m2': 'interval form with bounds that are not multiples of the resolution (lower bound in the upper half of its cell, upper bound just above a border)',
+    'C14-r6m1': 'a cast whose end point coincides with its origin after an earlier cast (early return keeps the previous end cell)',
+    'C14-r6m2': 'a caster bound with setGridIndexMapping(): default-constructed, or re-targeted to a grid of another resolution',
+    'C15-r6m1': '3-D grid, a Y or Z scroll while the X index offset is non-zero (row fill over an empty pointer range)',
+    'C15-r6m2': '3-D grid, one translation with |dx| >= nx (or |dy| >= ny) and a later component that is not a multiple of its size',
+    'C16-r6m1': 'OnlineVariance with a full window and a sample equal to the one about to be evicted, followed by a different sample',
+    'C16-r6m2': 'OnlineAverage(precision) + setWindowSize(W), queried before the W-th sample of the first filling',
+    'C17-r6m1': 'expected rate below 4 Hz and a heartbeat between 0.5 s and 2/rate after the last stamp',
+    'C17-r6m2': 'a tolerance larger than the expected rate',
+    'C18-r6m1': 'an acceptance bound that is exactly 0 with a non-zero target and a tiny value just outside it (rounded difference)',
+    'C18-r6m2': 'reliability bit-equal to the low threshold with low < high',
+    'C19-r6m1': 'a reader copying the report while the writer is inside CheckupReliability::evaluate()',
+    'C19-r6m2': 'a heartbeat concurrent with evaluate() after at least one completed evaluation',
+    'C20-r6m1': 'a non-degenerate set whose largest side is at most the machine epsilon of the scalar type',
+    'C20-r6m2': 'a set of exactly one point through the constructor overload',
     'C01-r5m1': 'a height above 32.768 km that is not float-representable (altitude field narrowed to float)',
     'C01-r5m2': 'an exactly spherical ellipsoid, b == a (e2 computed as inf/inf)',
     'C02-r5m1': 'local points tens of km from the anchor at mm accuracy, or an orthonormality check (rotation assembled in float)',
